@@ -259,7 +259,7 @@ def run(ck):
     reinit.check_init_consistency(ck, prog, "C08-INITCONS", files={FILE})
     ck.floor("C08-INITCONS", 6)
     from . import C10
-    C10.check_sizekey(ck, prog, rule="C08-SIZEKEY", files={FILE}, floor=1)
+    C10.check_sizekey(ck, prog, rule="C08-SIZEKEY", files={FILE, "lz_encoder.c"}, floor=1)
     # the output queue shared with the other threaded coder is reset by lzma_outq_init() on every (re)initialisation
     from . import reinit as _re
     ck.rule("C08-OUTQRESET", "lzma_outq_init() resets every lzma_outq member that the queue operations modify")
@@ -278,3 +278,10 @@ def run(ck):
     # bound has to be exact for LZMA2 (rule shared with C02)
     from . import C02
     C02.check_bound(ck, prog)
+    # a worker's Block encoder is re-used for every Block it gets: the filters and the LZ encoder start each Block from what
+    # their init functions store
+    from . import reinit as _r2
+    ck.rule("C08-READFIRST", "coders re-used by the worker threads: what the coding function can read before storing to it is stored by the init function on every path returning LZMA_OK")
+    _r2.check_read_first(ck, prog, "C08-READFIRST", files={"simple_coder.c", "delta_common.c", "lzma2_encoder.c", "lzma_encoder.c",
+                                                           "lz_encoder.c", "block_encoder.c"})
+    ck.floor("C08-READFIRST", 12)
